@@ -297,6 +297,15 @@ class Interp:
             r = self.equals(a, b)
             return r if isinstance(op, ast.Eq) else znot(r)
         if isinstance(a, (SObj, SRef)) or isinstance(b, (SObj, SRef)):
+            # operator overloading on the left operand's class: only through a callee contract of the dunder method
+            dunder = {ast.Lt: "__lt__", ast.LtE: "__le__", ast.Gt: "__gt__", ast.GtE: "__ge__"}.get(type(op))
+            if dunder and isinstance(a, (SObj, SRef)) and isinstance(a.cls, type):
+                for k in inspect.getmro(a.cls):
+                    if dunder in k.__dict__:
+                        h = self.engine.contract.callees.get(k.__dict__[dunder])
+                        if h is not None:
+                            return h(self, [a, b], {})
+                        break
             raise Unsupported("ordering on objects")
         if isinstance(op, ast.Lt):
             return a < b
